@@ -6,7 +6,7 @@
                     conversion in Search::notifyPV, the TT ply shift (setScore / getScore),
                     the depth cut-off of iterativeDeepening (MATE0 - |score|)
 """
-from ..core import cname, ap, walk, show, strip_not, eff_cond
+from ..core import const_of, cname, ap, walk, show, strip_not, eff_cond
 from ..peval import Evaluator, Unknown
 from .. import regions as G
 from .. import rules as R
@@ -41,6 +41,7 @@ def run(fb, rep, tier):
     # a node in check whose evasion list is empty is scored as checkmate: the list must be complete (shared with C01.1)
     from . import C01
     C01.c1_masks(fb, rep, clause='C04.3', only=('MoveGen::checkEvasions',))
+    c4_bound_types(fb, rep, 'C04.4')
 
 
 def encoders(fb, rep, clause):
@@ -374,3 +375,218 @@ def c2_unproven_mates(fb, rep, clause):
         rep.ob(clause, 'K1 pairing', '%s: the side to move is flipped back on every path to the exit' % tag, not unbalanced, f.where, '', f.sname)
     rep.floor(clause, 'null-move search results', n_src, 2)
     rep.floor(clause, 'score sinks in negaScout', n_sink, 40)
+
+
+# ----------------------------------------------------------------------------- .4
+
+TT_ENTRY = 'TranspositionTable::TTEntry'
+
+
+def _strip4(t):
+    while isinstance(t, dict) and t.get('k') == 'cast':
+        t = t.get('e')
+    return t
+
+
+def _single_def_inits(f):
+    """{var id: initialiser} of locals that are declared with an initialiser and never assigned again"""
+    inits, assigned = {}, set()
+    for _, _, e in f.events():
+        if e.get('k') == 'decl':
+            for v in e.get('vars', []):
+                if v.get('init') is not None:
+                    inits[v['id']] = v['init']
+        for n in walk(e):
+            if n.get('k') in ('asg', 'incdec'):
+                tgt = _strip4(n.get('l') if n.get('k') == 'asg' else n.get('e'))
+                if isinstance(tgt, dict) and tgt.get('k') == 'var':
+                    assigned.add(tgt.get('id'))
+    return {k: v for k, v in inits.items() if k not in assigned}
+
+
+def c4_bound_types(fb, rep, clause):
+    """K4 bound-type discipline.  A hash / tablebase entry carries (score, type): EXACT, lower bound (GE) or upper
+    bound (LE).  Where negaScout *adopts* the entry's score - assigns it to a local - under a comparison that makes
+    the adopted value lower than what it replaces or is compared with (`entry < x`), the entry is used as an upper bound
+    and the guards must leave only {EXACT, LE} possible; for `entry > x` only {EXACT, GE}.  A mated score taken from a
+    GE entry, or a mating score from an LE entry, announces a mate that was never proved."""
+    names = {n: fb.const('TType::' + n) for n in ('T_EXACT', 'T_GE', 'T_LE', 'T_EMPTY')}
+    if rep.need(clause, None if None in names.values() else names, 'TType enumerators') is None:
+        return
+    allowed = {'upper': {names['T_EXACT'], names['T_LE']}, 'lower': {names['T_EXACT'], names['T_GE']}}
+    cands = [f for f in fb.funcs.values() if f.has_cfg and f.sname == 'Search::negaScout']
+    rep.floor(clause, 'negaScout instantiations', len(cands), 2)
+    n_sites = 0
+    ordn = {}
+    for f in sorted(cands, key=lambda x: x.name):
+        # entry objects and their score / type aliases
+        ents = {}
+        for b, i, e in f.events():
+            if e.get('k') == 'decl':
+                for v in e.get('vars', []):
+                    if (v.get('rc') or '') == TT_ENTRY:
+                        ents[v['id']] = v['n']
+
+        def of_entry(t, meth):
+            t = _strip4(t)
+            if isinstance(t, dict) and t.get('k') == 'call' and cname(t) == TT_ENTRY + '::' + meth:
+                r = _strip4(t.get('recv'))
+                if isinstance(r, dict) and r.get('k') == 'var' and r.get('id') in ents:
+                    return r['id']
+            return None
+        score_alias, type_alias = {}, {}
+        for b, i, e in f.events():
+            if e.get('k') == 'decl':
+                for v in e.get('vars', []):
+                    x = of_entry(v.get('init'), 'getScore')
+                    if x is not None:
+                        score_alias[v['id']] = x
+                    x = of_entry(v.get('init'), 'getType')
+                    if x is not None:
+                        type_alias[v['id']] = x
+
+        def score_of(t):
+            t = _strip4(t)
+            x = of_entry(t, 'getScore')
+            if x is None and isinstance(t, dict) and t.get('k') == 'var':
+                x = score_alias.get(t.get('id'))
+            return x
+
+        def type_of(t):
+            t = _strip4(t)
+            x = of_entry(t, 'getType')
+            if x is None and isinstance(t, dict) and t.get('k') == 'var':
+                x = type_alias.get(t.get('id'))
+            return x
+
+        inits = _single_def_inits(f)
+
+        def tv(t, ent, val, depth=0):
+            """three-valued truth of condition t when the type of entry `ent` is val"""
+            t = _strip4(t)
+            if not isinstance(t, dict):
+                return None
+            if t.get('k') == 'var' and t.get('id') in inits and depth < 4 and type_of(t) is None and score_of(t) is None:
+                return tv(inits[t['id']], ent, val, depth + 1)
+            if t.get('k') == 'un' and t.get('op') == '!':
+                x = tv(t.get('e'), ent, val)
+                return None if x is None else (not x)
+            if t.get('k') == 'bin' and t.get('op') in ('&&', '||'):
+                a, b_ = tv(t.get('l'), ent, val), tv(t.get('r'), ent, val)
+                if t['op'] == '&&':
+                    return False if (a is False or b_ is False) else (True if (a is True and b_ is True) else None)
+                return True if (a is True or b_ is True) else (False if (a is False and b_ is False) else None)
+            if t.get('k') == 'bin' and t.get('op') in ('==', '!='):
+                for x, y in ((t.get('l'), t.get('r')), (t.get('r'), t.get('l'))):
+                    c = const_of(_strip4(y))
+                    if type_of(x) == ent and c is not None:
+                        return (val == c) if t['op'] == '==' else (val != c)
+            return None
+        for b, i, e in f.events():
+            if e.get('k') != 'asg' or e.get('op') != '=':
+                continue
+            ent = score_of(e.get('r'))
+            lhs = _strip4(e.get('l'))
+            if ent is None or not (isinstance(lhs, dict) and lhs.get('k') == 'var'):
+                continue
+            guards = G.guard_trees(f, set(f.blocks), b)
+            direction = None
+            for c, side in guards:
+                c = _strip4(c)
+                if isinstance(c, dict) and c.get('k') == 'bin' and c.get('op') in ('<', '<=', '>', '>='):
+                    l_is, r_is = score_of(c.get('l')) == ent, score_of(c.get('r')) == ent
+                    if l_is == r_is:
+                        continue
+                    less = c['op'] in ('<', '<=')
+                    if not side:
+                        less = not less
+                    if r_is:
+                        less = not less
+                    direction = 'upper' if less else 'lower'
+            if direction is None:
+                continue
+            n_sites += 1
+            ordn[(f.name, ent, direction)] = ordn.get((f.name, ent, direction), 0) + 1
+            possible = {v for v in names.values() if all(tv(c, ent, v) is None or tv(c, ent, v) == side for c, side in guards)}
+            inv = {v: k for k, v in names.items()}
+            rep.ob(clause, 'K4 bound-type discipline', '%s: the score of the %s entry adopted as %s bound (#%d) is taken only from entries of a type that proves it'
+                   % (f.name.replace('Search::', ''), 'tablebase' if 'tb' in ents[ent].lower() else 'hash', direction, ordn[(f.name, ent, direction)]), possible <= allowed[direction], R.site(f, e),
+                   'entry %s; types possible under the guards: %s; allowed: %s' % (ents[ent], sorted(inv[v] for v in possible), sorted(inv[v] for v in allowed[direction])), f.sname)
+    rep.floor(clause, 'adoptions of an entry score under a comparison', n_sites, 6)
+    # TTEntry::isCutOff: an entry cuts off only as what its type proves
+    ic = fb.find1(TT_ENTRY + '::isCutOff')
+    if rep.need(clause, ic, TT_ENTRY + '::isCutOff') is None:
+        return
+    params = [p_.get('id') for p_ in ic.d.get('params', [])]
+    sc_ids, ty_ids = set(), set()
+    for b, i, e in ic.events():
+        if e.get('k') == 'decl':
+            for v in e.get('vars', []):
+                init = _strip4(v.get('init'))
+                if isinstance(init, dict) and init.get('k') == 'call' and cname(init) == TT_ENTRY + '::getScore':
+                    sc_ids.add(v['id'])
+                if isinstance(init, dict) and init.get('k') == 'call' and cname(init) == TT_ENTRY + '::getType':
+                    ty_ids.add(v['id'])
+
+    def is_score(t):
+        t = _strip4(t)
+        return isinstance(t, dict) and ((t.get('k') == 'var' and t.get('id') in sc_ids) or (t.get('k') == 'call' and cname(t) == TT_ENTRY + '::getScore'))
+
+    def is_type(t):
+        t = _strip4(t)
+        return isinstance(t, dict) and ((t.get('k') == 'var' and t.get('id') in ty_ids) or (t.get('k') == 'call' and cname(t) == TT_ENTRY + '::getType'))
+
+    def is_param(t, k):
+        t = _strip4(t)
+        return isinstance(t, dict) and t.get('k') == 'var' and len(params) > k and t.get('id') == params[k]
+
+    inits3 = _single_def_inits(ic)
+
+    def tv3(t, v, P, Q, depth=0):
+        t = _strip4(t)
+        if not isinstance(t, dict):
+            return None
+        if t.get('k') == 'var' and t.get('id') in inits3 and depth < 4 and not is_type(t) and not is_score(t):
+            return tv3(inits3[t['id']], v, P, Q, depth + 1)
+        if t.get('k') == 'un' and t.get('op') == '!':
+            x = tv3(t.get('e'), v, P, Q)
+            return None if x is None else (not x)
+        if t.get('k') == 'bin' and t.get('op') in ('&&', '||'):
+            a, b_ = tv3(t.get('l'), v, P, Q), tv3(t.get('r'), v, P, Q)
+            if t['op'] == '&&':
+                return False if (a is False or b_ is False) else (True if (a is True and b_ is True) else None)
+            return True if (a is True or b_ is True) else (False if (a is False and b_ is False) else None)
+        if t.get('k') == 'bin' and t.get('op') in ('==', '!='):
+            for x, y in ((t.get('l'), t.get('r')), (t.get('r'), t.get('l'))):
+                c = const_of(_strip4(y))
+                if is_type(x) and c is not None:
+                    return (v == c) if t['op'] == '==' else (v != c)
+        if t.get('k') == 'bin' and t.get('op') in ('<', '<=', '>', '>='):
+            l, r, op = t.get('l'), t.get('r'), t['op']
+            if not is_score(l) and is_score(r):
+                l, r, op = r, l, {'<': '>', '<=': '>=', '>': '<', '>=': '<='}[op]
+            if is_score(l):
+                if op in ('>', '>=') and is_param(r, 1):
+                    return False if not P else (True if op == '>=' else None)       # P: score >= beta
+                if op in ('<', '<=') and is_param(r, 0):
+                    return False if not Q else (True if op == '<=' else None)       # Q: score <= alpha
+        return None
+    n_ret = 0
+    for b, i, e in ic.events():
+        if e.get('k') != 'ret' or const_of(_strip4(e.get('e'))) != 1:
+            continue
+        n_ret += 1
+        guards = G.guard_trees(ic, set(ic.blocks), b)
+
+        def feasible(v, P, Q):
+            return all(tv3(c, v, P, Q) is None or tv3(c, v, P, Q) == side for c, side in guards)
+        bad = []
+        if any(feasible(names['T_GE'], False, Q) for Q in (True, False)):
+            bad.append('a lower-bound entry cuts off without score >= beta')
+        if any(feasible(names['T_LE'], P, False) for P in (True, False)):
+            bad.append('an upper-bound entry cuts off without score <= alpha')
+        if any(feasible(names['T_EMPTY'], P, Q) for P in (True, False) for Q in (True, False)):
+            bad.append('an empty entry cuts off')
+        rep.ob(clause, 'K4 bound-type discipline', 'isCutOff: cut-off #%d is granted only to what the entry type proves (EXACT; GE with score >= beta; LE with score <= alpha)' % n_ret,
+               not bad, R.site(ic, e), '; '.join(bad) or 'guards: %s' % [('' if s_ else '!') + show(c, 70) for c, s_ in guards], ic.sname)
+    rep.floor(clause, 'cut-off grants in TTEntry::isCutOff', n_ret, 3)
